@@ -1,155 +1,5 @@
 /-
-  Proofs: FCI decoders and codecs.
+  Proofs (split over several files).
 -/
-import Rtcp.Spec.All
-import Rtcp.Proofs.FciLemmas
-
-namespace Rtcp.Proofs
-open Rtcp Rtcp.Impl Rtcp.Spec
-
-/-! ## decoding arbitrary FCI bytes (C15, C01) -/
-
-/-- NACK: the iterator yields, for every byte string, exactly the reference decoding, and stops -/
-theorem nack_entries_eq {ε : Type} (d : Bytes) :
-    (Nack.entries d : R ε (List UInt16 × Bool)) = .ok ((nackDecode d).map Nat.toUInt16, true) := by
-  sorry
-
-theorem fir_entries_eq {ε : Type} (d : Bytes) :
-    (Fir.entries d : R ε (List (UInt32 × UInt8) × Bool))
-      = .ok ((firDecode d).map (fun (s, q) => (s.toUInt32, q.toUInt8)), true) := by
-  unfold Fir.entries
-  rw [fir_collect d _ 0 [] (by omega)]
-  simp [firDecode, List.map_map]
-  intro a b _
-  simp [firG]
-  split <;> simp_all
-
-theorem sli_entries_eq {ε : Type} (d : Bytes) :
-    (Sli.lostMacroblocks d : R ε (List MacroBlockEntry × Bool))
-      = .ok ((sliDecode d).map (fun (a, b, c) => ⟨a.toUInt16, b.toUInt16, c.toUInt8⟩), true) := by
-  unfold Sli.lostMacroblocks
-  rw [sli_collect d _ 0 [] (by omega)]
-  simp [sliDecode, List.map_map]
-  intro a b c e _
-  simp only [sliG, MacroBlockEntry.decode, MacroBlockEntry.mk.injEq]
-  have := a.toNat_lt; have := b.toNat_lt; have := c.toNat_lt; have := e.toNat_lt
-  refine ⟨?_, ?_, ?_⟩
-  · congr 1; omega
-  · congr 1; omega
-  · congr 1; omega
-
-/-- RPSI: on every accepted FCI the payload type is the low 7 bits and the bit string, with the
-    reported number of trailing bits dropped, is the reference bit string; the slice lies in the input -/
-theorem rpsi_decode_eq {ε : Type} (d : Bytes) (h : Rpsi.parse d = .ok d) :
-    ∃ pt bits s k, rpsiDecode d = some (pt, bits) ∧
-      (Rpsi.payloadType d : R ε UInt8) = .ok pt.toUInt8 ∧
-      (Rpsi.bitString 0 d : R ε (Slice × Nat)) = .ok (s, k) ∧
-      (bitsOf s.bytes).take (8 * s.bytes.length - k) = bits ∧ SubSlice s d := by
-  sorry
-
-theorem rpsi_parse_ok_iff (d v : Bytes) :
-    Rpsi.parse d = .ok v ↔ v = d ∧ 4 ≤ d.length ∧ u8At d 0 / 8 + 2 ≤ d.length := by
-  unfold Rpsi.parse Rpsi.paddingBytes
-  by_cases h4 : d.length < 4
-  · simp [h4]; omega
-  · have h0 : 0 < d.length := by omega
-    simp only [h4, if_false, idx_lt h0, R.ok_bind, R.pure_eq, u8At]
-    simp only [List.getD_eq_getElem?_getD, List.getElem?_eq_getElem h0, Option.getD_some]
-    split
-    · simp; omega
-    · simp; constructor
-      · intro h; exact ⟨h.symm, by omega, by omega⟩
-      · intro h; exact h.1.symm
-
-/-- PLI accepts only an empty body -/
-theorem pli_parse_ok_iff (d v : Bytes) : Pli.parse d = .ok v ↔ v = d ∧ d = [] := by
-  unfold Pli.parse
-  cases d with
-  | nil => simp
-  | cons x xs => simp
-
-theorem fir_parse_ok_iff (d v : Bytes) : Fir.parse d = .ok v ↔ v = d ∧ 8 ≤ d.length := by
-  unfold Fir.parse
-  split
-  · simp; omega
-  · simp; constructor
-    · intro h; exact ⟨h.symm, by omega⟩
-    · intro h; exact h.1.symm
-theorem sli_parse_ok_iff (d v : Bytes) : Sli.parse d = .ok v ↔ v = d ∧ 4 ≤ d.length := by
-  unfold Sli.parse
-  split
-  · simp; omega
-  · simp; constructor
-    · intro h; exact ⟨h.symm, by omega⟩
-    · intro h; exact h.1.symm
-theorem nack_parse_ok (d : Bytes) : Nack.parse d = .ok d := by
-  rfl
-
-theorem fci_parsers_no_panic (f : Fb.FciType) (d : Bytes) : f.parse d ≠ .panic := by
-  cases f
-  · simp [Fb.FciType.parse, Nack.parse]
-  · simp only [Fb.FciType.parse, Fir.parse]; split <;> simp
-  · simp only [Fb.FciType.parse, Sli.parse]; split <;> simp
-  · simp only [Fb.FciType.parse]
-    intro h
-    unfold Rpsi.parse Rpsi.paddingBytes at h
-    by_cases h4 : d.length < 4
-    · simp [h4] at h
-    · have h0 : 0 < d.length := by omega
-      simp only [h4, if_false, idx_lt h0, R.ok_bind, R.pure_eq] at h
-      split at h <;> simp at h
-  · simp only [Fb.FciType.parse, Pli.parse]; split <;> simp
-
-/-- `parse_fci::<F>`: succeeds only if the packet's kind and format number match `F`; then it is
-    `F::parse` on exactly the bytes between the two SSRCs and the padding. All 32 formats, both kinds. -/
-theorem parseFci_eq (k : FbKind) (f : Fb.FciType) (d : Bytes) (h : Fb.parse k d = .ok d) :
-    Fb.parseFci k f d =
-      (if (f = .nack ↔ k = .transport) ∧ count d = f.format.toNat
-       then f.parse (range d 12 (d.length - padLen d))
-       else .err .wrongImplementation) := by
-  sorry
-
-/-! ## what the builders write decodes to what was put in (C05, C07) -/
-
-/-- NACK: exactly the set, ascending, each once -/
-theorem nack_roundtrip (seqs : List UInt16) (h : seqs.Pairwise (· < ·)) :
-    nackDecode (nackImage ⟨seqs⟩) = seqs.map (·.toNat) := by
-  sorry
-
-/-- NACK: the words are strictly increasing in PID -/
-theorem nack_words_increasing (l : List Nat) (h : l.Pairwise (· < ·)) :
-    ((nackEncode l).map (·.pid)).Pairwise (· < ·) := by
-  sorry
-
-/-- NACK: no list of words that decodes to the same ascending list is shorter -/
-theorem nack_minimal (l : List Nat) (h : l.Pairwise (· < ·)) (hb : ∀ s ∈ l, s < 65536)
-    (ws : List NackWord) (hd : (ws.map NackWord.decode).flatten = l) :
-    (nackEncode l).length ≤ ws.length := by
-  sorry
-
-/-- FIR: one entry per map entry (any order of the map gives the corresponding order of entries) -/
-theorem fir_roundtrip (entries : List (UInt32 × UInt8)) :
-    firDecode (firImage ⟨entries⟩) = entries.map (fun (s, q) => (s.toNat, q.toNat)) := by
-  sorry
-
-/-- the FIR map: key-unique, re-adding an SSRC keeps the last sequence -/
-theorem fir_upsert_lookup (m : List (UInt32 × UInt8)) (k k' : UInt32) (v : UInt8) :
-    (FirBuilder.upsert k v m).lookup k' = if k' = k then some v else m.lookup k' := by
-  sorry
-
-theorem fir_upsert_keys_unique (m : List (UInt32 × UInt8)) (k : UInt32) (v : UInt8)
-    (h : (m.map (·.1)).Nodup) : ((FirBuilder.upsert k v m).map (·.1)).Nodup := by
-  sorry
-
-/-- SLI: the same (first, number, picture-id) entries in order, within the 13/13/6-bit ranges -/
-theorem sli_roundtrip (es : List MacroBlockEntry)
-    (h : ∀ e ∈ es, e.start.toNat < 8192 ∧ e.count.toNat < 8192 ∧ e.pictureId.toNat < 64) :
-    sliDecode (sliImage ⟨es⟩) = es.map (fun e => (e.start.toNat, e.count.toNat, e.pictureId.toNat)) := by
-  sorry
-
-/-- RPSI: the same payload type and the same bit string bit for bit -/
-theorem rpsi_roundtrip (b : RpsiBuilder) (h : rpsiRules b = []) :
-    rpsiDecode (rpsiImage b) = some (b.payloadType.toNat, rpsiBits b.nativeBitString b.nativeBitOverrun.toNat) := by
-  sorry
-
-end Rtcp.Proofs
+import Rtcp.Proofs.FciDecode
+import Rtcp.Proofs.FciNack
